@@ -20,6 +20,9 @@ assertions they break and are asserted in small dedicated parts:
   f18_region  C05:lossy-superposition:coefficients-conjugated   (cross terms use conj(c))
   f19_region  C05:postselected-superposition:state_vector-raises (terms with fewer photons
               than post-selected are dropped from one list but not from the other)
+  f20_region  C05:distinguishable-prep:cutoff-not-inferred       (DistinguishableNumberState
+              neither infers nor validates the cutoff: n >= 4 photons with the default
+              configuration give a table that sums to 0, or an IndexError at overlap 1)
 
 `C05_SKIP_KNOWN_REGIONS=1` drops the dedicated parts (used by the sensitivity protocol);
 `C05_ASSUME_FIXED=f15,f16,...` lifts the corresponding exclusions (candidate fixes).
@@ -60,6 +63,7 @@ B_F16 = "C05:gram:complex-convention-conjugated"
 B_F17 = "C05:postselected:lossy-or-distinguishable:table-raises"
 B_F18 = "C05:lossy-superposition:coefficients-conjugated"
 B_F19 = "C05:postselected-superposition:state_vector-raises"
+B_F20 = "C05:distinguishable-prep:cutoff-not-inferred"
 
 RULE = (
     "Hypothesis-built cases by construction (no rejection): d<=4 modes, n<=4 photons incl. "
@@ -161,8 +165,9 @@ def gram_of(case, n):
     return "gram", g, v, None
 
 
-def build_and_run(case, g, lam):
+def build_and_run(case, g, lam, cutoff="case"):
     d = case["d"]
+    cutoff = case["cutoff"] if cutoff == "case" else cutoff
     inp = case["input"]
     with warnings.catch_warnings():
         warnings.simplefilter("ignore")
@@ -187,7 +192,7 @@ def build_and_run(case, g, lam):
                     pq.Q(*op["modes"]) | pq.UniformLoss(op["t"])
                 else:
                     pq.Q(*op["modes"]) | pq.LossyInterferometer(op_matrix(op))
-        cfg = pq.Config() if case["cutoff"] is None else pq.Config(cutoff=case["cutoff"])
+        cfg = pq.Config() if cutoff is None else pq.Config(cutoff=cutoff)
         return pq.PassiveSimulator(d=d, config=cfg).execute(program).state
 
 
@@ -265,7 +270,7 @@ def _call(f):
 # Regions excluded from the main search.  Once a fix is committed, delete its entry here (the
 # dedicated part then guards the fix, the main search covers the region); for trying a
 # candidate fix in a scratch tree use C05_ASSUME_FIXED=f15,f16,... with PIQUASSO_REPO.
-ALL_KNOWN = tuple(k for k in ("f15", "f16", "f17", "f18", "f19")
+ALL_KNOWN = tuple(k for k in ("f15", "f16", "f17", "f18", "f19", "f20")
                   if k not in os.environ.get("C05_ASSUME_FIXED", "").split(","))
 
 
@@ -297,21 +302,23 @@ def evaluate(case, ctx, exclude=ALL_KNOWN):
     npost = sum(ps_counts)
 
     # ---- run the real thing
+    # an inferred cutoff is max(default, n+1) -- except that DistinguishableNumberState
+    # leaves the default untouched (known finding f20): there the case is run with the
+    # explicit cutoff n+1 instead
+    default_cutoff = pq.Config().cutoff
+    in_f20 = okind != "none" and case["cutoff"] is None and nmax + 1 > default_cutoff
+    run_cutoff = case["cutoff"]
+    if in_f20 and "f20" in exclude:
+        ctx.exclude(B_F20)
+        run_cutoff = nmax + 1
     try:
-        state = build_and_run(case, g, lam)
+        state = build_and_run(case, g, lam, run_cutoff)
     except (InvalidState, InvalidParameter, NotImplementedCalculation) as e:
         ctx.case(case, False, [f"rejected_at_execution:{type(e).__name__}"])
         raise Violation(f"C05:execute:rejected:{type(e).__name__}",
                         f"a program of the documented family was refused: {e}")
 
-    # NumberState / FockStateVector raise an inferred cutoff to n+1; DistinguishableNumberState
-    # leaves the default untouched (the table is then truncated below the default cutoff)
-    if case["cutoff"] is not None:
-        c0 = case["cutoff"]
-    elif okind == "none":
-        c0 = max(pq.Config().cutoff, nmax + 1)
-    else:
-        c0 = pq.Config().cutoff
+    c0 = run_cutoff if run_cutoff is not None else max(default_cutoff, nmax + 1)
     cred = c0 - npost
     basis = progs.basis_tuples(pq, len(remaining), cred) if cred > 0 else []
 
@@ -403,8 +410,12 @@ def evaluate(case, ctx, exclude=ALL_KNOWN):
 
     # ---- cutoff bookkeeping
     if int(state._config.cutoff) != cred:
-        raise Violation("C05:cutoff-bookkeeping",
-                        f"state cutoff {state._config.cutoff}, expected {c0} - {npost} {where}")
+        raise Violation(B_F20 if in_f20 else "C05:cutoff-bookkeeping",
+                        f"state cutoff {state._config.cutoff}, expected {c0} - {npost}"
+                        + (f" (cutoff not given: NumberState infers n+1 = {nmax + 1}, "
+                           f"DistinguishableNumberState keeps the default {default_cutoff}; its "
+                           f"table then misses every {nmax}-photon outcome)" if in_f20 else "")
+                        + f" {where}")
     if state.d != len(remaining):
         raise Violation("C05:mode-bookkeeping", f"state.d={state.d}, expected {len(remaining)}")
 
@@ -617,6 +628,10 @@ def prop_f19(case, ctx):
     evaluate(case, ctx, exclude=_only("f19"))
 
 
+def prop_f20(case, ctx):
+    evaluate(case, ctx, exclude=_only("f20"))
+
+
 # ------------------------------------------------------------------------- generator
 
 UKINDS = ["haar"] * 6 + ["real", "real", "perm", "diag", "identity"]
@@ -800,10 +815,20 @@ def _li(d, s, seed=1, ukind="haar"):
             "s": list(s)}
 
 
-def _case(d, occ, ops, overlap=None, cutoff=None):
+def _case(d, occ, ops, overlap=None, cutoff="n+1"):
     return {"d": d, "input": {"kind": "number", "occ": list(occ)},
             "overlap": overlap or {"kind": "none"}, "ops": ops,
-            "cutoff": cutoff or sum(occ) + 1, "mseed": 0, "big": False}
+            "cutoff": sum(occ) + 1 if cutoff == "n+1" else cutoff, "mseed": 0, "big": False}
+
+
+def f20_cases(tier):
+    u2 = {"op": "I", "modes": [0, 1], "seed": 1, "ukind": "haar"}
+    return [
+        _case(2, [2, 2], [u2], {"kind": "scalar", "lam": 1.0}, cutoff=None),
+        _case(2, [2, 2], [u2], {"kind": "scalar", "lam": 0.5}, cutoff=None),
+        _case(2, [3, 1], [u2], {"kind": "gram", "sub": "real", "r": 2, "seed": 3}, cutoff=None),
+        _case(2, [2, 1], [u2], {"kind": "scalar", "lam": 0.5}, cutoff=None),  # n+1 <= default
+    ]
 
 
 def f15_cases(tier):
@@ -893,5 +918,6 @@ def parts(tier):
             Part("f17_region", prop_f17, kind="enum", cases=f17_cases),
             Part("f18_region", prop_f18, kind="enum", cases=f18_cases),
             Part("f19_region", prop_f19, kind="enum", cases=f19_cases),
+            Part("f20_region", prop_f20, kind="enum", cases=f20_cases),
         ]
     return out
